@@ -135,7 +135,7 @@ func ruleIO(c *Ctx, r *Report, cone map[*ssa.Function]bool, prefix string, drop 
 		// count the fallible non-I/O call sites judged
 		n := 0
 		for fn := range cone {
-			for _, b := range fn.Blocks {
+			for _, b := range theCtx.GB(fn) {
 				for _, ins := range b.Instrs {
 					call, ok := ins.(*ssa.Call)
 					if !ok {
